@@ -22,7 +22,7 @@ from simfw.seams import HarnessError     # noqa: E402
 STUBS = [
     "disk: a private per-process tmpfs directory reached only through interposed builtins.open / io.open / os.* (paths under /sim translated, I/O traced, read faults injected); file semantics are the kernel's",
     "set iteration order: SimSet injected as the name `set` in productmd.composeinfo/images/treeinfo (membership etc. are the real C implementation)",
-    "network: _urlopen replaced by a guard that fails the run (never reached)",
+    "network: urllib.request.OpenerDirector.open interposed - URLs on the simulated host sim.example are answered by an in-process peer serving the run's simulated disk (a real http.client.HTTPResponse parsed from a fake socket; refused / timeout / 503 / disconnect / cut-body faults on the n-th request; chunked transfer, dribbling socket); any other URL fails the run, the real network is never reached (used by C20's remote runs only)",
 ]
 REAL = [
     "all productmd code (unmodified working tree at VERIF_REPO, default /repo), incl. every _validate* method (wrapped only to count / inject a raise)",
